@@ -5,7 +5,10 @@ use lz4_flex::block::decompress_size_prepended;
 use pco::standalone::simple_decompress;
 use std::collections::{BTreeMap, HashMap};
 use std::ops::Range;
+#[cfg(not(locustdb_verif))]
 use std::sync::atomic::AtomicBool;
+#[cfg(locustdb_verif)]
+use locustdb_simrt::sync::atomic::AtomicBool;
 use std::sync::Arc;
 
 use crate::observability::SimpleTracer;
